@@ -126,6 +126,11 @@ func genEnv(r *Rng, g *gCmd, consistent bool, distinct bool, small bool) string 
 					}
 					if !fixed[s.G] {
 						ints[s.G] = uint64(pick(5) % 6)
+						if s.Op == "forCountInt" && !small && r.Intn(5) == 0 {
+							// long integer lists: the counts at which arithmetic done in the count field's own 8 bits wraps,
+							// and the longest a 255-word parameter block has room for behind fourteen fixed words
+							ints[s.G] = uint64(r.Pick(127, 128, 129, 200, 241))
+						}
 						fixed[s.G] = true
 					}
 					lens[s.F] = int(ints[s.G])
